@@ -32,6 +32,12 @@ pub fn p_trim_pred(s: &str) -> String {
 pub fn p_trim_slice(s: &str) -> String {
     s.trim_end_matches(&['a', 'b'][..]).to_string()
 }
+pub fn p_trim_str(s: &str) -> String {
+    let mut o = s.trim_end_matches("ab").to_string();
+    o.push('|');
+    o.push_str(s.trim_start_matches("a"));
+    o
+}
 pub fn p_trim_ws(s: &str) -> String {
     s.trim().to_string()
 }
@@ -309,6 +315,7 @@ mod probe_native {
             println!("PROBE\tp_trim_pred\t{}\t{:?}", i, p_trim_pred(s));
             println!("PROBE\tp_trim_slice\t{}\t{:?}", i, p_trim_slice(s));
             println!("PROBE\tp_trim_ws\t{}\t{:?}", i, p_trim_ws(s));
+            println!("PROBE\tp_trim_str\t{}\t{:?}", i, p_trim_str(s));
             println!("PROBE\tp_strip_prefix\t{}\t{:?}", i, p_strip_prefix(s));
             println!("PROBE\tp_strip_suffix\t{}\t{:?}", i, p_strip_suffix(s));
             println!("PROBE\tp_rfind_char\t{}\t{:?}", i, p_rfind_char(s));
